@@ -159,7 +159,7 @@ Section Tie.
     unfold validate_logout_response_tree, logout_signature_step.
     destruct (cfg_skip_sig cfg); cbn [negb bindc bind fst snd].
     - lr_tail.
-    - unfold dsig_call. destruct (dsig root) as [v| |];
+    - unfold ves_call, dsig_call. destruct (validate_element_signature dsig root) as [v| |];
         cbn [err_of_res ptr_of_res is_missing_signature is_nil negb bindc bind fst snd norm_res norm_pm res_some norm_err]; try reflexivity; lr_tail.
   Qed.
 
@@ -173,7 +173,7 @@ Section Tie.
     unfold validate_logout_request_tree, logout_signature_step.
     destruct (cfg_skip_sig cfg); cbn [negb bindc bind fst snd].
     - lq_tail.
-    - unfold dsig_call. destruct (dsig root) as [v| |];
+    - unfold ves_call, dsig_call. destruct (validate_element_signature dsig root) as [v| |];
         cbn [err_of_res ptr_of_res is_missing_signature is_nil negb bindc bind fst snd norm_res norm_pm res_some norm_err]; try reflexivity; lq_tail.
   Qed.
 
@@ -189,7 +189,7 @@ Section Tie.
     - rewrite unmarshal_into_zero_r. destruct (unmarshal_response root) as [r|e]; cbn [other err_of_res is_nil negb bind]; [|reflexivity].
       rewrite G_Validate_eq. unfold set_r_signature_validated.
       destruct (validate cfg now _) as [[]|e']; cbn [err_of_res is_nil negb bind res_some norm_res norm_pm]; reflexivity.
-    - unfold dsig_call. destruct (dsig root) as [v| |];
+    - unfold ves_call, dsig_call. destruct (validate_element_signature dsig root) as [v| |];
         cbn [err_of_res ptr_of_res is_missing_signature is_nil negb bindc bind fst snd norm_res norm_pm res_some norm_err]; try reflexivity.
       + (* signed Response *)
         unfold decrypt_call. destruct (decrypt_assertions decrypt v) as [v'|e]; cbn [err_of_res is_nil negb bind]; [|reflexivity].
